@@ -61,7 +61,7 @@ Print Assumptions C03_same_name_same_id.
 Theorem C03_sizes_never_shrink : forall p sel test ops s,
   lifecycle (carry_mappings true) p sel test ops = Ok s ->
   space_n_samples s = space_n_samples p /\ space_n_treatments s = space_n_treatments p.
-Proof. intros p sel test ops s H. exact (sizes_frozen p s (ids_frozen p sel test ops s H)). Qed.
+Proof. exact sizes_never_shrink. Qed.
 Print Assumptions C03_sizes_never_shrink.
 
 (* TODAY'S construction (no mappings passed): ids_frozen is FALSE.  There is a prepared simulation whose
